@@ -979,4 +979,146 @@ example : compiles ("https://".toList ++ [Char.ofNat 0xed, Char.ofNat 0xa0, Char
     compiles ("https://".toList ++ [Char.ofNat 0xe2, Char.ofNat 0x82, Char.ofNat 0xac]) = true ∧
     compiles ("https://".toList ++ [Char.ofNat 0xf4, Char.ofNat 0x90, Char.ofNat 0x80, Char.ofNat 0x80]) = false := by decide
 
+
+/-! ## round 5: several instances on the path of one request (`serveStack`) -/
+
+/-- a single instance in front of the handler is exactly `serveFull` (the round-4 statements are the
+    one-layer case of the stack) -/
+theorem serveStack_single (fr : FReq) (l : Layer) : serveStack fr [l] = l.run fr := by
+  unfold serveStack serveStack
+  simp only []
+  cases hr : (l.run fr).core.ran with
+  | false => simp
+  | true =>
+    simp only [if_true]
+    -- an instance that passes the request on answered 200 so far and the handler adds nothing
+    have hst : (l.run fr).core.status = 200 := by
+      unfold Layer.run at hr ⊢
+      rcases serveFull_cases l.cfg (layerReq fr l) with ⟨_, e⟩ | ⟨_, hc⟩
+      · rw [e]; rfl
+      · rcases hc with ⟨_, ⟨_, e⟩ | ⟨_, e⟩⟩ | ⟨_, st, _, e⟩ | ⟨_, _, ⟨_, e⟩ | ⟨_, e⟩⟩ |
+            ⟨_, a, _, _, ⟨_, e⟩ | ⟨_, e⟩⟩
+        all_goals rw [e] at hr ⊢
+        all_goals first
+          | rfl
+          | (simp [noHeaders] at hr; done)
+    cases ho : l.run fr with
+    | mk core al am ah ae ma =>
+      cases core with
+      | mk st rn ao ac vy =>
+        rw [ho] at hr hst
+        simp only at hr hst
+        subst hr; subst hst
+        simp [mergeObs, handlerObs, noHeaders]
+
+/-- **C11_stack_ran_iff** — behind any stack every instance must pass the request on its own: the
+    handler runs iff each instance, looking at the request as it was sent, calls `next`.  No instance
+    can make another one skip its decision (an `Access-Control-Allow-Origin` already in the response,
+    set by an enclosing instance, does not count for anything). -/
+theorem C11_stack_ran_iff (fr : FReq) : ∀ ls : List Layer,
+    (serveStack fr ls).core.ran = true ↔ ∀ l ∈ ls, (l.run fr).core.ran = true
+  | [] => by simp [serveStack, handlerObs, noHeaders]
+  | l :: rest => by
+    have ih := C11_stack_ran_iff fr rest
+    unfold serveStack
+    simp only []
+    cases hr : (l.run fr).core.ran with
+    | false => simp [hr]
+    | true => simp [hr, mergeObs, ih]
+
+/-- **C11_stack_every_instance** — the handler ran behind a stack ⇒ every instance either was told
+    by its Skipper to stand aside, or saw a non-preflight request that carries no Origin or an
+    Origin it granted itself. -/
+theorem C11_stack_every_instance (fr : FReq) (ls : List Layer) (h : (serveStack fr ls).core.ran = true)
+    (l : Layer) (hl : l ∈ ls) :
+    l.skip = true ∨ (fr.core.preflight = false ∧ (fr.origin = [] ∨ (l.run fr).core.acao ≠ none)) := by
+  have hr := (C11_stack_ran_iff fr ls).mp h l hl
+  exact C11_full_ran l.cfg (layerReq fr l) hr
+
+/-- **C11_stack_disallowed_blocked** — a request from an Origin that ONE unskipped allow-list
+    instance anywhere on the path does not allow never reaches the handler, however permissive the
+    other instances are (the statement the "already negotiated by an enclosing CORS" shortcut breaks). -/
+theorem C11_stack_disallowed_blocked (fr : FReq) (ls : List Layer) (l : Layer) (hl : l ∈ ls)
+    (hs : l.skip = false) (hf : l.cfg.func = none) (hv : ValidOrigin fr.origin)
+    (hp : ∀ p ∈ effOrigins l.cfg.core, PatScheme p) (hna : ¬ Allowed (effOrigins l.cfg.core) fr.origin) :
+    (serveStack fr ls).core.ran = false := by
+  cases hr : (serveStack fr ls).core.ran with
+  | false => rfl
+  | true =>
+    exfalso
+    have h1 := (C11_stack_ran_iff fr ls).mp hr l hl
+    unfold Layer.run at h1
+    rw [serveFull_core l.cfg (layerReq fr l) hf hs] at h1
+    have := (C11_disallowed_blocked l.cfg.core (layerReq fr l).core hv hp hna).2.2.1
+    rw [this] at h1; cases h1
+
+/-- the same for an instance that decides by `AllowOriginFunc` -/
+theorem C11_stack_func_blocked (fr : FReq) (ls : List Layer) (l : Layer) (hl : l ∈ ls)
+    (hs : l.skip = false) (f : Str → FRes) (hf : l.cfg.func = some f) (ho : fr.origin ≠ [])
+    (hna : f fr.origin ≠ .allow) : (serveStack fr ls).core.ran = false := by
+  cases hr : (serveStack fr ls).core.ran with
+  | false => rfl
+  | true =>
+    exfalso
+    have h1 := (C11_stack_ran_iff fr ls).mp hr l hl
+    have := (C11_func_blocks l.cfg (layerReq fr l) f hf hs ho hna).2.2.1
+    unfold Layer.run at h1
+    rw [this] at h1; cases h1
+
+/-- **C11_stack_grants_from_instance** — what leaves the stack as Access-Control-Allow-Origin /
+    -Credentials was put there by one of the instances for this very request (so `C11_full_acao_sound`,
+    `C11_func_sound`, `C11_full_credentials` apply to that instance). -/
+theorem C11_stack_grants_from_instance (fr : FReq) : ∀ ls : List Layer,
+    (∀ v, (serveStack fr ls).core.acao = some v → ∃ l ∈ ls, (l.run fr).core.acao = some v) ∧
+    ((serveStack fr ls).core.acac = true → ∃ l ∈ ls, (l.run fr).core.acac = true)
+  | [] => by simp [serveStack, handlerObs, noHeaders]
+  | l :: rest => by
+    obtain ⟨ih1, ih2⟩ := C11_stack_grants_from_instance fr rest
+    unfold serveStack
+    simp only []
+    cases hr : (l.run fr).core.ran with
+    | false =>
+      simp only [Bool.false_eq_true, if_false]
+      exact ⟨fun v hv => ⟨l, by simp, hv⟩, fun hc => ⟨l, by simp, hc⟩⟩
+    | true =>
+      simp only [if_true, mergeObs]
+      constructor
+      · intro v hv
+        cases hi : (serveStack fr rest).core.acao with
+        | some w =>
+          rw [hi] at hv
+          have : w = v := by simpa using hv
+          subst this
+          obtain ⟨l', hl', h'⟩ := ih1 w hi
+          exact ⟨l', by simp [hl'], h'⟩
+        | none =>
+          rw [hi] at hv
+          exact ⟨l, by simp, by simpa using hv⟩
+      · intro hc
+        cases hi : (serveStack fr rest).core.acac with
+        | true =>
+          obtain ⟨l', hl', h'⟩ := ih2 hi
+          exact ⟨l', by simp [hl'], h'⟩
+        | false =>
+          rw [hi] at hc
+          exact ⟨l, by simp, by simpa using hc⟩
+
+-- non-vacuity: CORS() on the root, a strict instance inside; the evil origin is stopped by the inner
+-- one (and the 401 still carries the outer `*`), the listed origin passes both and gets the inner grant
+def strictLayer : Layer := ⟨⟨⟨["https://a.b.example.com".toList], true, false⟩, none, [], [], [], 0⟩, false, []⟩
+def rootLayer : Layer := ⟨defaultFull, false, []⟩
+example : serveStack ⟨⟨false, [oEvil]⟩, false, [], []⟩ [rootLayer, strictLayer] =
+    ⟨⟨401, false, some star, false, [varyOrigin, varyOrigin]⟩, none, none, none, none, none⟩ := by decide
+example : serveStack ⟨⟨false, [oGood]⟩, false, [], []⟩ [rootLayer, strictLayer] =
+    ⟨⟨200, true, some oGood, true, [varyOrigin, varyOrigin]⟩, none, none, none, none, none⟩ := by decide
+example : ¬ Allowed (effOrigins strictLayer.cfg.core) oEvil := by
+  intro h
+  rcases h with h | h | ⟨p, hp, hg⟩
+  · revert h; decide
+  · revert h; decide
+  · have hp' : p = "https://a.b.example.com".toList := by simpa [strictLayer, effOrigins] using hp
+    subst hp'
+    have := (glob_iff _ _).mpr hg
+    revert this; decide
+
 end C11
